@@ -60,6 +60,16 @@ func (k Keeper) ClaimRewards(ctx context.Context, sender sdk.AccAddress, validat
 		return nil, err
 	}
 
+	// Record that the sender has been paid up to the current multiplier of every reward denom,
+	// otherwise the same rewards would be claimable again
+	err = k.RewardMultiplier.Walk(ctx, collections.NewPrefixedPairRange[[]byte, string]([]byte(validatorAddr)),
+		func(key collections.Pair[[]byte, string], multiplier string) (bool, error) {
+			return false, k.UsersLastRewardMultiplier.Set(ctx, collections.Join3(sender, []byte(validatorAddr), key.K2()), multiplier)
+		})
+	if err != nil {
+		return nil, err
+	}
+
 	return total, nil
 }
 
